@@ -213,14 +213,30 @@ def premature_quiescence(events, mode):
             k = e["kind"]
             if k in ("new", "call", "print", "split", "drop"):
                 return True
-            if mode == "async" and (k in ("send", "sel", "cast", "close") or (k == "fwd" and False)):
-                return True
+            if mode in ("async", "sync") and k in ("send", "sel", "cast", "close"):
+                return True    # (the polarized versions log the send before the channel operation: a process parked at a sending form has not reached it yet)
             if k in ("recv", "case", "wait", "shift"):
                 if len(e["provs"]) > 1:
                     return True    # owes a duplication
                 c = tuple(e["names"][0]) if e["names"] and e["names"][0] else (tuple(e["provs"][0]) if e["provs"] else ())
                 if mode != "np" and pending[c] > 0:
                     return True
+    if mode == "np":
+        # rendezvous: a parked sender whose target is the channel a parked receiver listens on can still move
+        targets, listens = set(), set()
+        for p in live:
+            e = last.get(p)
+            if e is None or e["e"] != "at":
+                continue
+            k = e["kind"]
+            own = tuple(e["provs"][0]) if e["provs"] else ()
+            first = tuple(e["names"][0]) if e["names"] and e["names"][0] else own
+            if k in ("send", "sel", "cast", "close"):
+                targets.add(first)
+            elif k in ("recv", "case", "wait", "shift"):
+                listens.add(first)
+        if targets & listens:
+            return True
     return False
 
 
